@@ -7,7 +7,7 @@ Theorems about `Model.GenHlslVec` (the `Cast` / `Swizzle` / `Constructor` arms o
 of `generate_type_impl`) against `Spec.SemVec`.  Scalar leaves are handled by `gen_sem_expr`'s induction (`sim_expr`).
 -/
 namespace RsslVerif.Thm.C01
-open RsslVerif.Gen.HlslGenTables RsslVerif.Gen.HlslVecTables RsslVerif.Model RsslVerif.Model.IrVec
+open RsslVerif.Gen.HlslGenTables RsslVerif.Gen.HlslIntrinsicTables RsslVerif.Gen.HlslVecTables RsslVerif.Model RsslVerif.Model.IrVec
 open RsslVerif.Model.GenHlsl RsslVerif.Model.GenHlslVec RsslVerif.Spec.Sem RsslVerif.Spec.SemVec
 open RsslVerif.Lemmas.GenSem RsslVerif.Lemmas.GenSemVec
 open RsslVerif.Model.Ir (Ty Var Const Dir)
@@ -29,6 +29,19 @@ theorem swizzle_letters_are_identity :
     (∀ sl : List SwizzleSlot, VAst.parseSwizzle (swizzleName sl) = some (sl.map slotIdx)) := by
   refine ⟨charIdx_swizzleChar, ?_, parse_swizzleName⟩
   intro a b; cases a <;> cases b <;> decide
+
+/-- the vector-only pure built-ins (reductions, geometric functions, HLSL 2021 logical functions) with the name HLSL
+gives exactly that built-in -/
+def vectorBuiltins : List (String × Intrinsic) :=
+  [("dot", .Dot), ("length", .Length), ("distance", .Distance), ("cross", .Cross), ("normalize", .Normalize),
+   ("reflect", .Reflect), ("any", .Any), ("all", .All), ("and", .And), ("or", .Or), ("select", .Select)]
+
+/-- `generate_intrinsic_function`'s table (re-extracted on every run) invokes each of them under that very name, and no
+two of them (nor any of the 46 scalar built-ins of `intrinsic_table_is_identity`) share a name -/
+theorem vector_intrinsic_table_is_identity :
+    (∀ p ∈ vectorBuiltins, intrinsicForm p.2 = .invoke p.1) ∧
+    (∀ p ∈ vectorBuiltins, ∀ q ∈ vectorBuiltins ++ Ast.builtins, p.1 = q.1 → p.2 = q.2) := by
+  constructor <;> decide
 
 /-- every numeric type the layer can name is printed under a name HLSL reads as that type -/
 theorem vector_type_names_roundtrip (ty : VTy) (n : String) (h : vtypeName ty = .ok n)
